@@ -15,54 +15,67 @@ Proof. reflexivity. Qed.
 
 (** Effect of api_apply at the key. *)
 Lemma api_apply_spec w k ap w' o cr :
-  api_apply w k ap = (w', o, cr) ->
-  lookup k (w_store w') = Some o /\
+  api_apply w k ap = Some (w', o, cr) ->
+  lookup k (w_store w') = Some o /\ refs_valid (o_owners o) = true /\
   match lookup k (w_store w) with
   | None => cr = true /\ o = fresh_obj ap (w_uid w) (w_rv w)
   | Some cur => cr = false /\ exists rv, o = set_rv (apply_to ap cur) rv
   end.
 Proof.
   unfold api_apply. destruct (lookup k (w_store w)) as [cur|] eqn:E.
-  - destruct (obj_eqb (apply_to ap cur) cur) eqn:Eq.
-    + intros H. injection H as <- <- <-. apply obj_eqb_spec in Eq. split; [assumption|]. split; [reflexivity|].
+  - destruct (refs_valid (o_owners (apply_to ap cur))) eqn:Ev; cbn [negb]; [|discriminate].
+    destruct (obj_eqb (apply_to ap cur) cur) eqn:Eq.
+    + intros H. injection H as <- <- <-. apply obj_eqb_spec in Eq. split; [assumption|]. split; [now rewrite <- Eq|].
+      split; [reflexivity|].
       exists (o_rv cur). rewrite <- (apply_to_rv ap cur). rewrite set_rv_same. now rewrite Eq.
-    + intros H. injection H as <- <- <-. cbn. split; [apply lookup_upsert_same|]. split; [reflexivity|]. eexists; reflexivity.
-  - intros H. injection H as <- <- <-. cbn. split; [apply lookup_upsert_same|]. split; reflexivity.
+    + intros H. injection H as <- <- <-. cbn. split; [apply lookup_upsert_same|]. split; [exact Ev|]. split; [reflexivity|]. eexists; reflexivity.
+  - destruct (refs_valid (o_owners (fresh_obj ap (w_uid w) (w_rv w)))) eqn:Ev; cbn [negb]; [|discriminate].
+    intros H. injection H as <- <- <-. cbn. split; [apply lookup_upsert_same|]. split; [exact Ev|]. split; reflexivity.
 Qed.
 
-Lemma api_apply_frame w k ap k' :
-  k' <> k -> lookup k' (w_store (fst (fst (api_apply w k ap)))) = lookup k' (w_store w).
+Lemma api_apply_frame w k ap w' o cr k' :
+  api_apply w k ap = Some (w', o, cr) -> k' <> k -> lookup k' (w_store w') = lookup k' (w_store w).
 Proof.
-  intros Hne. unfold api_apply. destruct (lookup k (w_store w)) as [cur|].
-  - destruct (obj_eqb (apply_to ap cur) cur); cbn; [reflexivity|]. now apply lookup_upsert_other.
-  - cbn. now apply lookup_upsert_other.
+  unfold api_apply. intros H Hne. destruct (lookup k (w_store w)) as [cur|].
+  - destruct (negb _); [discriminate|]. destruct (obj_eqb (apply_to ap cur) cur); injection H as <- <- <-; cbn; [reflexivity|].
+    now apply lookup_upsert_other.
+  - destruct (negb _); [discriminate|]. injection H as <- <- <-. cbn. now apply lookup_upsert_other.
 Qed.
 
-Lemma api_apply_rv_mono w k ap : w_rv w <= w_rv (fst (fst (api_apply w k ap))).
+Lemma api_apply_rv_mono w k ap w' o cr : api_apply w k ap = Some (w', o, cr) -> w_rv w <= w_rv w'.
 Proof.
-  unfold api_apply. destruct (lookup k (w_store w)) as [cur|].
-  - destruct (obj_eqb (apply_to ap cur) cur); cbn; lia.
-  - cbn. lia.
+  unfold api_apply. intros H. destruct (lookup k (w_store w)) as [cur|].
+  - destruct (negb _); [discriminate|]. destruct (obj_eqb (apply_to ap cur) cur); injection H as <- <- <-; cbn; lia.
+  - destruct (negb _); [discriminate|]. injection H as <- <- <-. cbn. lia.
 Qed.
 
-Lemma api_release_frame w k owners w' o k' :
-  api_release_patch w k owners = Some (w', o) -> k' <> k -> lookup k' (w_store w') = lookup k' (w_store w).
+Lemma api_release_frame w k owners w' r k' :
+  api_release_patch w k owners = Some (w', r) -> k' <> k -> lookup k' (w_store w') = lookup k' (w_store w).
 Proof.
   unfold api_release_patch. destruct (lookup k (w_store w)) as [cur|]; [|discriminate].
+  destruct (negb (refs_valid owners)); [intros H; injection H as <- <-; reflexivity|].
   match goal with |- context [obj_eqb ?a ?b] => destruct (obj_eqb a b) end.
   - intros H; injection H as <- <-. reflexivity.
   - intros H; injection H as <- <-. intros Hne. cbn. now apply lookup_upsert_other.
 Qed.
 
+Lemma api_release_invalid w k owners w' : api_release_patch w k owners = Some (w', None) -> w' = w.
+Proof.
+  unfold api_release_patch. destruct (lookup k (w_store w)) as [cur|]; [|discriminate].
+  destruct (negb (refs_valid owners)); [intros H; injection H as <-; reflexivity|].
+  match goal with |- context [obj_eqb ?a ?b] => destruct (obj_eqb a b) end; discriminate.
+Qed.
+
 (** The release patch changes nothing but ownerReferences, the cache label and the resourceVersion. *)
 Lemma api_release_spec w k owners w' o :
-  api_release_patch w k owners = Some (w', o) ->
+  api_release_patch w k owners = Some (w', Some o) ->
   exists cur, lookup k (w_store w) = Some cur /\ lookup k (w_store w') = Some o /\
     o_uid o = o_uid cur /\ o_gen o = o_gen cur /\ o_owners o = owners /\ o_aowners o = o_aowners cur /\
     o_rev o = o_rev cur /\ o_cache o = false /\ o_pkg o = o_pkg cur /\ o_body o = o_body cur /\
     o_avail o = o_avail cur /\ o_obsgen o = o_obsgen cur /\ o_deleting o = o_deleting cur /\ o_fin o = o_fin cur.
 Proof.
   unfold api_release_patch. destruct (lookup k (w_store w)) as [cur|] eqn:E; [|discriminate].
+  destruct (negb (refs_valid owners)); [discriminate|].
   match goal with |- context [obj_eqb ?a ?b] => destruct (obj_eqb a b) eqn:Eq end.
   - intros H; injection H as <- <-. apply obj_eqb_spec in Eq. exists cur. split; [reflexivity|]. split; [assumption|].
     rewrite <- Eq. cbn. repeat split; reflexivity.
